@@ -35,7 +35,7 @@ struct Stats {
     serde_ops: u64,
     fault_configured: [u64; 6],
     fault_fired: [u64; 6],
-    mode_hist: [u64; 5],
+    mode_hist: [u64; 6],
     short_reads: u64,
     eintrs: u64,
     rl_err_propagated: u64,
@@ -63,7 +63,7 @@ impl Stats {
             serde_ops: 0,
             fault_configured: [0; 6],
             fault_fired: [0; 6],
-            mode_hist: [0; 5],
+            mode_hist: [0; 6],
             short_reads: 0,
             eintrs: 0,
             rl_err_propagated: 0,
@@ -89,7 +89,7 @@ impl Stats {
             self.fault_configured[i] += o.fault_configured[i];
             self.fault_fired[i] += o.fault_fired[i];
         }
-        for i in 0..5 {
+        for i in 0..6 {
             self.mode_hist[i] += o.mode_hist[i];
         }
         self.short_reads += o.short_reads;
@@ -258,6 +258,7 @@ fn one_run(world: &World, t: Trace, tier: Tier, known: &[Known], st: &mut Stats)
     match t.input.rl {
         seams::RlMode::None => st.mode_hist[2] += 1,
         seams::RlMode::Err => st.mode_hist[3] += 1,
+        seams::RlMode::Over => st.mode_hist[5] += 1,
         _ => {}
     }
     if t.input.native_read_byte {
@@ -1217,7 +1218,7 @@ fn cmd_run(world: &World, args: &Args) -> i32 {
         }
     }
     let fault_table: Vec<Value> = (0..6).map(|i| json!({"kind": FAULT_KINDS[i], "passes_configured": st.fault_configured[i], "fired_inside_a_record": st.fault_fired[i]})).collect();
-    let mode_table: Vec<Value> = (0..5).map(|i| json!({"kind": MODE_KINDS[i], "histories_configured": st.mode_hist[i]})).collect();
+    let mode_table: Vec<Value> = (0..6).map(|i| json!({"kind": MODE_KINDS[i], "histories_configured": st.mode_hist[i]})).collect();
     let per_hour = |n: u64| if wall > 0.0 { (n as f64 / wall * 3600.0) as u64 } else { 0 };
     let ev = json!({
         "property_id": PROPERTY,
